@@ -557,8 +557,12 @@ def _write_evidence(mod, prop_id, tier, seed, total: Collected, per_part, known_
         'wall_s': round(time.time() - t0, 2),
         'violations': len(violations),
     }
-    os.makedirs(os.path.join(HERE, 'evidence'), exist_ok=True)
-    path = os.path.join(HERE, 'evidence', f'{prop_id}.json')
+    # evidence/<ID>.json describes runs against /repo only: a run against a scratch copy (PV_REPO_SRC, used by the seeded-change and
+    # mutation audits) writes next to it, into evidence/scratch-runs/ (ignored by git)
+    scratch = os.path.realpath(os.environ.get('PV_REPO_SRC', '/repo/src')) != os.path.realpath('/repo/src')
+    edir = os.path.join(HERE, 'evidence', 'scratch-runs') if scratch else os.path.join(HERE, 'evidence')
+    os.makedirs(edir, exist_ok=True)
+    path = os.path.join(edir, f'{prop_id}.json')
     tmp = path + '.tmp'
     with open(tmp, 'w') as fh:
         json.dump(ev, fh, indent=1, sort_keys=True)
